@@ -237,8 +237,15 @@ func extractField(f *of.MatchField) *spec.Node {
 func extractInstr(i of.Instruction) *spec.Node {
 	switch v := i.(type) {
 	case *of.InstrGotoTable:
+		// the header a caller switches on is part of the value
+		if v.Type != 1 || v.Length != 8 {
+			xfail("goto-table instruction with header type %d length %d (want 1, 8)", v.Type, v.Length)
+		}
 		return spec.N("instr.goto_table", spec.U("table_id", uint64(v.TableId)))
 	case *of.InstrWriteMetadata:
+		if v.Type != 2 || v.Length != 24 {
+			xfail("write-metadata instruction with header type %d length %d (want 2, 24)", v.Type, v.Length)
+		}
 		return spec.N("instr.write_metadata", spec.U("metadata", v.Metadata), spec.U("metadata_mask", v.MetadataMask))
 	case *of.InstrActions:
 		k, ok := map[uint16]string{3: "instr.write_actions", 4: "instr.apply_actions", 5: "instr.clear_actions"}[v.Type]
@@ -251,6 +258,9 @@ func extractInstr(i of.Instruction) *spec.Node {
 		}
 		return n
 	case *of.InstrMeter:
+		if v.Type != 6 || v.Length != 8 {
+			xfail("meter instruction with header type %d length %d (want 6, 8)", v.Type, v.Length)
+		}
 		return spec.N("instr.meter", spec.U("meter_id", uint64(v.MeterId)))
 	}
 	xfail("no extractor for instruction %T", i)
